@@ -29,17 +29,26 @@ type e11desc struct {
 
 // checkSubsequence: got is a strictly in-order subsequence of sent (by unique
 // version), returns the number matched or -1.
+// sameEvent: do a received event and a published one denote the same event?
+// The object a Delete carries is not fixed by any property (the library itself
+// publishes the wire object for watch deletes and the cached object for deletes
+// it synthesises), so deletes are identified by key, everything else by its
+// unique version.
+func sameEvent(got, pub evrec) bool {
+	if got.Type == kcacheDelete && pub.Type == kcacheDelete {
+		return got.Key == pub.Key
+	}
+	return got.RV == pub.RV && got.Type == pub.Type && got.Key == pub.Key
+}
+
 func checkSubsequence(got []evrec, sent []evrec) (int, string) {
 	j := 0
 	for i, e := range got {
-		for j < len(sent) && sent[j].RV != e.RV {
+		for j < len(sent) && !sameEvent(e, sent[j]) {
 			j++
 		}
 		if j == len(sent) {
-			return -1, fmt.Sprintf("received event %d (%s) is not in the published sequence after the previous one (duplicate, reordering or foreign event)", i, e)
-		}
-		if sent[j].Type != e.Type || sent[j].Key != e.Key {
-			return -1, fmt.Sprintf("received event %d is %s but the published event with that version is %s", i, e, sent[j])
+			return -1, fmt.Sprintf("received event %d (%s) is not in the published sequence after the previous one (duplicate, reordering, wrong type or foreign event)", i, e)
 		}
 		j++
 	}
@@ -52,7 +61,7 @@ func checkExact(r *Res, name string, got, sent []evrec) {
 		return
 	}
 	for i := range got {
-		if got[i].RV != sent[i].RV || got[i].Type != sent[i].Type {
+		if !sameEvent(got[i], sent[i]) {
 			r.V("C10", "healthy-subscriber-order", "%s: event %d is %s, published %s", name, i, got[i], sent[i])
 			return
 		}
@@ -496,13 +505,15 @@ func e11CtlCase(seed uint64, L, mask int) Case {
 				sent = append(sent, fresh...)
 				r.Add("resumed-consumer-checks", 1)
 				defer func(fresh []evrec, gotp *[]evrec) {
-					have := map[string]bool{}
-					for _, e := range *gotp {
-						have[e.RV] = true
-					}
 					missing := 0
 					for _, e := range fresh {
-						if !have[e.RV] {
+						found := false
+						for _, g := range *gotp {
+							if sameEvent(g, e) {
+								found = true
+							}
+						}
+						if !found {
 							missing++
 						}
 					}
@@ -615,6 +626,11 @@ func e11StressCase(seed uint64, n int) Case {
 							}
 							v := kit.Atoi(e.Resource().ResourceVersion)
 							reads.Add(1)
+							if e.Type() == kcacheDelete {
+								// the version a delete's payload carries is not specified (wire
+								// object or last cached object): deletes are not judged here
+								continue
+							}
 							if v <= last {
 								r.V("C10", "slow-stream-not-subsequence", "typed consumer %d (reading only when its buffer is full) received version %d after version %d: out of publication order (or duplicate)", c, v, last)
 								return
